@@ -212,10 +212,10 @@ def run(rep, tier, seed):
                                                   "MultiFunction.prefer_method", "MultiFunction._reset_cache", "MultiFunction._precedes"],
                 "executed under CrossHair; history operations and role permutation are solver-chosen")
     rep.encoded_lisp("src/basilisp/core.lpy", ["derive", "underive", "isa?", "parents", "ancestors", "descendants"], "compiled from source")
-    to = 90 if quick else 600
+    to = 90 if quick else 240
     specs = [dominance_spec(to, v) for v in VARIANTS]
     n = 2 if quick else 3
-    perms = [0, 9, 14, 23] if quick else [0, 3, 7, 9, 14, 17, 20, 23]
+    perms = [0, 9, 14, 23]
     if quick:
         # one obligation per (first operation, first key): ~250 paths each; one role permutation (the iteration-order question is
         # the three-candidate scenarios' subject, which cover all 24)
